@@ -336,10 +336,11 @@ void ControlFlowExecutor::execute_match_statement(const ASTNode *node) {
         }
     } else if (match_expr->node_type == ASTNodeType::AST_FUNC_CALL) {
         // 関数呼び出しの場合、評価してReturnExceptionから値を取得
+        bool returned_plain_value = false;
+        int64_t plain_value = 0;
         try {
-            interpreter_->eval_expression(match_expr);
-            throw std::runtime_error(
-                "Function in match expression did not return a value");
+            plain_value = interpreter_->eval_expression(match_expr);
+            returned_plain_value = true;
         } catch (const ReturnException &ret) {
             if (ret.is_struct && ret.struct_value.is_enum) {
                 enum_value = ret.struct_value;
@@ -347,6 +348,30 @@ void ControlFlowExecutor::execute_match_statement(const ASTNode *node) {
             } else {
                 throw std::runtime_error(
                     "Function in match expression must return an enum");
+            }
+        }
+        if (returned_plain_value) {
+            // C風enum（関連値を持つバリアントが無いenum）を返す関数は整数値を
+            // 返す。関数の宣言された戻り値型がそのようなenumなら、整数値から
+            // メンバー名を引き直す（変数の場合と同じ扱い）。
+            const ASTNode *func = interpreter_->find_function(match_expr->name);
+            const EnumDefinition *plain_def =
+                func ? interpreter_->get_enum_manager()->get_enum_definition(
+                           func->return_type_name)
+                     : nullptr;
+            if (!plain_def || plain_def->has_associated_values) {
+                throw std::runtime_error(
+                    "Function in match expression did not return a value");
+            }
+            enum_value.is_enum = true;
+            enum_value.enum_type_name = func->return_type_name;
+            enum_value.has_associated_value = false;
+            enum_value.value = plain_value;
+            for (const auto &member : plain_def->members) {
+                if (member.value == plain_value) {
+                    enum_value.enum_variant = member.name;
+                    break;
+                }
             }
         }
     } else if (match_expr->node_type == ASTNodeType::AST_ENUM_CONSTRUCT) {
